@@ -266,6 +266,16 @@ func runC18(c *Check) {
 			}
 			return false, trunc(t.String(), 80)
 		}
+		afterDecode := map[ssa.Instruction]bool{}
+		{
+			gl := BuildECFG(p, lv, ExpandOpts{MaxDepth: 0})
+			decs := gl.Select(func(x *Node) bool { return strings.HasSuffix(CallName(x), "mapstructure.Decoder).Decode") })
+			for nd, r := range gl.Reachable(decs, nil) {
+				if r && nd.Kind == NInstr && nd.In != nil {
+					afterDecode[nd.In] = true
+				}
+			}
+		}
 		for _, b := range lv.Blocks {
 			for _, in := range b.Instrs {
 				st, isS := in.(*ssa.Store)
@@ -288,6 +298,13 @@ func runC18(c *Check) {
 				}
 				al, isA := root.(*ssa.Alloc)
 				if !isA || !strings.HasSuffix(al.Type().String(), "config.Config") {
+					continue
+				}
+				// what was decoded is what is returned: an option is not rewritten after the decode
+				// (normalising a path turns tcp://host into tcp:/host and "" into "."; a value given by
+				// flag or file no longer reaches the option unchanged, a saved file does not load back equal)
+				if afterDecode[in] {
+					c.Bad("C18-R3", "decode-target ⟂ cfg"+path+" unchanged-after-decode", fnName(lv), p.InstrPos(in), "the loader overwrites the option after decoding it ("+trunc(TermOf(st.Val, &Ctx{Fn: lv}).String(), 70)+"): the value from the flag or the file does not reach the option unchanged, and a configuration that was saved does not load back equal", nil)
 					continue
 				}
 				inst := "decode-target ⟂ cfg" + path + " keeps-defaults"
